@@ -23,8 +23,17 @@ pub fn body_of(op: &ClientOp) -> Value {
                 (false, 1) => json!({"textDocument": {"hover": {"contentFormat": ["plaintext"]}, "synchronization": {"didSave": true}}}),
                 (false, _) => json!({"textDocument": {}, "workspace": {"applyEdit": true}, "window": {"workDoneProgress": false}}),
             };
-            json!({"jsonrpc":"2.0","id":id,"method":"initialize",
-                   "params":{"processId":null,"rootUri":null,"capabilities":caps}})
+            // the optional members a real client sends, in three variations
+            match id.rem_euclid(4) {
+                0 => json!({"jsonrpc":"2.0","id":id,"method":"initialize",
+                       "params":{"processId":null,"rootUri":null,"capabilities":caps}}),
+                1 => json!({"jsonrpc":"2.0","id":id,"method":"initialize",
+                       "params":{"processId":4711,"clientInfo":{"name":"simclient","version":"1.0"},"locale":"de","rootPath":"/w","rootUri":"file:///w",
+                                 "capabilities":caps,"trace":"off","workspaceFolders":[{"uri":"file:///w","name":"w"}]}}),
+                2 => json!({"jsonrpc":"2.0","id":id,"method":"initialize",
+                       "params":{"processId":1,"rootUri":null,"initializationOptions":{"anything":[1,2,3]},"capabilities":caps,"trace":"verbose","workspaceFolders":null}}),
+                _ => json!({"jsonrpc":"2.0","id":id,"method":"initialize","params":{"capabilities":caps}}),
+            }
         }
         ClientOp::Initialized => json!({"jsonrpc":"2.0","method":"initialized","params":{}}),
         ClientOp::Open { uri, text } => json!({"jsonrpc":"2.0","method":"textDocument/didOpen",
@@ -55,10 +64,18 @@ pub fn body_of(op: &ClientOp) -> Value {
                     json!({"textDocument":td,"options":{"tabSize":tab,"insertSpaces":line % 2 == 0}})
                 }
                 "textDocument/references" => {
-                    json!({"textDocument":td,"position":pos,"context":{"includeDeclaration":true}})
+                    json!({"textDocument":td,"position":pos,"context":{"includeDeclaration":(line + character) % 2 == 0}})
                 }
                 "textDocument/rename" => {
-                    json!({"textDocument":td,"position":pos,"newName":"renamed_x"})
+                    // new names of every kind: fresh, in use, keyword, builtin, empty, not a name
+                    let names = ["renamed_x", "main", "i", "int", "while", "", "1x", "x y", "ä", "printi", "a"];
+                    json!({"textDocument":td,"position":pos,"newName":names[((*line as usize) * 7 + *character as usize) % names.len()]})
+                }
+                "textDocument/completion" if character % 3 == 0 => {
+                    json!({"textDocument":td,"position":pos,"context":{"triggerKind":1}})
+                }
+                "textDocument/signatureHelp" if character % 3 == 1 => {
+                    json!({"textDocument":td,"position":pos,"context":{"triggerKind":2,"triggerCharacter":"(","isRetrigger":false}})
                 }
                 _ => json!({"textDocument":td,"position":pos}),
             };
@@ -78,7 +95,13 @@ pub fn body_of(op: &ClientOp) -> Value {
         ClientOp::UnknownNotification { method } => {
             json!({"jsonrpc":"2.0","method":method,"params":{}})
         }
-        ClientOp::Shutdown { id } => json!({"jsonrpc":"2.0","id":id,"method":"shutdown"}),
+        ClientOp::Shutdown { id } => {
+            if id.rem_euclid(2) == 0 {
+                json!({"jsonrpc":"2.0","id":id,"method":"shutdown","params":null})
+            } else {
+                json!({"jsonrpc":"2.0","id":id,"method":"shutdown"})
+            }
+        }
         ClientOp::Exit => json!({"jsonrpc":"2.0","method":"exit"}),
     }
 }
@@ -174,7 +197,8 @@ fn frame_with(st: &Step, version: Option<i64>, range_lengths: Option<Vec<Option<
             }
         }
     }
-    let body = serde_json::to_string(&body).expect("json");
+    // style 3: the body pretty-printed (insignificant white space inside the JSON text)
+    let body = if st.hdr == 3 { serde_json::to_string_pretty(&body).expect("json") } else { serde_json::to_string(&body).expect("json") };
     let mut out = match st.hdr {
         1 => format!("Content-Length: {}\r\n{CONTENT_TYPE}\r\n", body.len()),
         2 => format!("{CONTENT_TYPE}Content-Length: {}\r\n\r\n", body.len()),
